@@ -133,8 +133,9 @@ def check(prop, tier, seed, replay=None):
     configs = {'C11': ['gcc20-ubsan', 'gcc20-O2-ndebug-emul', 'gcc23-O0-assert-mdspandebug'], 'C03': ['gcc20-ubsan', 'gcc23-O0-assert-mdspandebug', 'gcc23-paren-bracket'], 'C13': ['gcc20-ubsan']}[prop]
     if tier == 'thorough': configs = configs + ['clang20-O0-assert', 'clang17-O0-ndebug-emul', 'gcc17-O2-assert']
     rep.cov['rule'] = RULES[prop]; rep.notes['configs'] = configs
+    c14_replay = bool(replay) and str(replay.get('line', '')).startswith(('v14 ', 'map ', 'ext '))
     cases = V.gen_cases(seed, tier, {prop}) if not replay else None
-    for cfg in configs:
+    for cfg in (configs if not c14_replay else []):
         try: exe, secs, cached = V.build(cfg)
         except C.BuildError as e:
             rep.broke(dict(correspondence='view op server build (%s)' % cfg, why=str(e), log=e.log[-3000:])); continue
@@ -161,7 +162,7 @@ def check(prop, tier, seed, replay=None):
                 rep.violation(dict(kind={'segv': 'element-storage-touched-while-protected', 'ub': 'undefined-behaviour-in-view-operation'}.get(c.impl, 'server-died'), impl=c.impl, config=cfg, **c.pub())); continue
             ok = walk(c, rep, prop, cfg)
             if ok and len(c.ext) >= 2: rep.sample(dict(line=c.line()[:400], output=c.impl[:300]), cap=4)
-    if prop == 'C13' and not replay:
+    if prop == 'C13' and (not replay or c14_replay):
         # the C++14 fold emulations behind size() / empty(): the C++14-only server under UBSan; extents with a zero whose
         # other extents multiply beyond the (signed) index type - the product is 0 and must be formed in size_type
         import random
@@ -173,6 +174,7 @@ def check(prop, tier, seed, replay=None):
                 b1, b2 = b + rnd.randint(0, 9), b + rnd.randint(0, 9)
                 lines.append('v14 right %s pat=D,D,D ext=%d,%d,0 obs' % (t, b1, b2)); lines.append('v14 left %s pat=D,D,D ext=0,%d,%d obs' % (t, b1, b2))
                 lines.append('v14 right %s pat=D,D ext=%d,0 obs' % (t, H)); lines.append('v14 left %s pat=D,D ext=0,%d obs' % (t, H))
+        if c14_replay: lines = [replay['line']]
         m14 = [V.canon(x) for x in C.driver(lines)]
         for cfg in (['gcc14-ubsan'] if tier == 'quick' else ['gcc14-ubsan', 'clang14-ubsan', 'gcc14-O0-assert-emul']):
             try: exe, secs, cached = C.cxx_build('c14srv', [C.os.path.join(C.HARNESS, 'c14srv.cpp')], config=cfg)
